@@ -295,13 +295,14 @@ def pe_expect(x, width):
     return (hx((x & -x).bit_length() - 1), "1")
 
 def oracle(prim, p, ops, out):
-    """True / False / None (no judgement: outside the specified domain or a documented
-    deviation proved as ..._refuted in Coq).  `out` = implementation output tokens."""
+    """True / False / None (no judgement: outside the specified domain) / "KNOWN:<token>" (the
+    implementation deviates from the mathematical definition in exactly the way recorded under
+    <token> in KNOWN_FINDINGS.txt).  `out` = implementation output tokens."""
     I = lambda k: int(ops[k], 16)
     O = lambda k: int(out[k], 16)
     if any(t.startswith("EXC") for t in out):
-        # documented design-time rejections (bpo2_wide_refuted, sldiv_narrow_refuted)
-        return None if (prim == "bpo2" and p[0] >= 32) or (prim == "sldiv" and p[0] == 1) else False
+        # documented rejected input (sldiv_narrow_refuted): SInt(1) literal does not fit a 1-bit numerator
+        return None if (prim == "sldiv" and p[0] == 1) else False
     if prim == "bitcount" or prim == "unthermo": return O(0) == popcount(I(0))
     if prim == "decoder": return O(0) == 1 << I(0)
     if prim == "encoder":
@@ -310,14 +311,19 @@ def oracle(prim, p, ops, out):
     if prim == "prienc": return tuple(out) == pe_expect(I(0), pe_width(p[0]))
     if prim == "pritree": return tuple(out) == pe_expect(I(0), petree_width(p[1], p[0]))
     if prim == "pritreereg":
+        # definition: a pipelined priority encoder, out(t) = prienc(in(t - D)), D = number of register levels
         n, bps = p
-        D = -(-max(1, log2c(n)) // bps) + 1
+        D = petree_depth(bps, n)
         xs = [int(o, 16) for o in ops]
         wd = petree_width(bps, n)
-        for t in range(len(xs)):
-            if t >= D and all(xs[t - j] == xs[t] for j in range(D + 1)):
-                if tuple(out[t].split(",")) != pe_expect(xs[t], wd):
-                    return False
+        deviates = False
+        for t in range(D, len(xs)):
+            if tuple(out[t].split(",")) != pe_expect(xs[t - D], wd):
+                if all(xs[t - j] == xs[t] for j in range(D + 1)):
+                    return False          # wrong even with the operand held: not the recorded finding
+                deviates = True
+        if deviates:
+            return "KNOWN:pritree-registered-unbalanced" if not petree_balanced(bps, n) else False
         return True
     if prim == "clz": return O(0) == p[0] - I(0).bit_length()
     if prim == "thermo": return O(0) == (1 << I(0)) - 1
@@ -333,8 +339,6 @@ def oracle(prim, p, ops, out):
     if prim == "max": return O(0) == max(I(0), I(1))
     if prim in ("smin", "smax"):
         w = p[0]; a, b = to_signed(I(0), w), to_signed(I(1), w)
-        if abs(a - b) >= 1 << (w - 1):
-            return None       # SInt compare overflows: smin_refuted / smax_refuted
         return to_signed(O(0), w) == (min(a, b) if prim == "smin" else max(a, b))
     if prim == "bpo2": return O(0) == (1 << (I(0).bit_length() - 1) if I(0) else 0)
     if prim == "ldiv": return O(0) == (I(0) // I(1) if I(1) else (1 << p[0]) - 1)
@@ -411,18 +415,24 @@ def oracle(prim, p, ops, out):
                 prev_expect = None
         return True
     if prim == "updown":
+        # definition: value + increment - decrement, clamped to [0, 2^w - 1]
         w, rv = p; top = (1 << w) - 1
-        prev_expect = rv
+        prev_expect = rv; quirk = None; deviates = False
         for t, cyc in enumerate(ops):
             inc, dec, rs = (int(x) for x in cyc.split(","))
             v = int(out[t], 16)
-            if prev_expect is not None and v != prev_expect: return False
+            if v != prev_expect:
+                if quirk is not None and v == quirk:
+                    deviates = True       # inc & dec at a bound moved the counter (recorded finding)
+                else:
+                    return False
+            quirk = None
             if rs: prev_expect = rv
-            elif inc and dec and v in (0, top): prev_expect = None    # documented quirk (updown_both_at_bounds)
-            elif inc and not dec: prev_expect = min(v + 1, top)
-            elif dec and not inc: prev_expect = max(v - 1, 0)
-            else: prev_expect = v
-        return True
+            else:
+                prev_expect = min(max(v + inc - dec, 0), top)
+                if inc and dec and v in (0, top) and top >= 1:
+                    quirk = v - 1 if v == top else 1
+        return "KNOWN:updown-both-at-bound" if deviates else True
     return None
 
 # ----------------------------------------------------------------------------- running
@@ -493,6 +503,14 @@ def petree_depth(bps, n):
         return 0
     return 1 + max(petree_depth(bps, min(ib, n - o)) for o in range(0, n, ib))
 
+def petree_balanced(bps, n):
+    """all sub-trees of every level have the same register depth"""
+    ib = next_pow2((n + (1 << bps) - 1) >> bps)
+    if ib <= 1:
+        return True
+    sizes = [min(ib, n - o) for o in range(0, n, ib)]
+    return len({petree_depth(bps, c) for c in sizes}) == 1 and all(petree_balanced(bps, c) for c in sizes)
+
 def classify(prim, params, ops):
     """(width class, operand class, non-trivial?) - which case splits of the model/proofs a case exercises"""
     try:
@@ -519,7 +537,7 @@ def main():
     rep = V.Report(CID)
     V.build_gatery()
     harness = V.build_harness("C17_scl")
-    res = V.check_properties(CID)
+    res = V.check_properties(CID, extra_files=["Gatery/SclMathModel.vo"])   # the extraction entry points are not a dependency of Properties_C17
     model = V.build_model(CID)
     if "--build-only" in sys.argv:
         sys.exit(0 if harness and model else 2)
@@ -550,7 +568,7 @@ def main():
 
     # ---- diff + oracle
     total = 0; tie_bad = []; oracle_bad = []; judged = 0; exc = []
-    op_hist = collections.Counter(); repaired = collections.Counter(); hist = collections.Counter(); cls_hist = collections.Counter(); distinct = set(); samples = []
+    known_hits = collections.defaultdict(list); op_hist = collections.Counter(); repaired = collections.Counter(); hist = collections.Counter(); cls_hist = collections.Counter(); distinct = set(); samples = []
     for head, opsl in groups:
         toks = head.split(); prim = toks[0]; params = [int(t) for t in toks[1:]]
         for o in opsl:
@@ -581,9 +599,22 @@ def main():
                 judged += 1
                 if v is False:
                     oracle_bad.append((line, iv))
+                elif isinstance(v, str):
+                    known_hits[v.split(":", 1)[1]].append((line, iv))
             if len(samples) < 12 and total % 997 == 1:
                 samples.append(f"{line[:160]} -> {iv[:120]}")
 
+    # deviations of the real implementation that are recorded in KNOWN_FINDINGS.txt (matched by the
+    # leading token); a deviation pattern without a `known:` line is a violation like any other
+    known_lines, _ = V.known_findings(CID)
+    known_tokens = {k.split()[0] for k in known_lines if k.split()}
+    for token, hits in sorted(known_hits.items()):
+        line, iv = min(hits, key=lambda h: len(h[0]))
+        if token in known_tokens:
+            rep.known(f"{token} case '{line}' observed '{iv}' ({len(hits)} deviating cases in this run)")
+        else:
+            oracle_bad.extend(hits)
+    rep.cov["known_finding_cases"] = {t: len(h) for t, h in known_hits.items()}
     rep.cov["evaluations"] = total
     rep.cov["distinct_nontrivial"] = len(distinct)
     rep.cov["rule"] = ("cases = (primitive, width/parameters, operand tuple or per-cycle trace): operands exhaustive while the operand space of a design is <= %d "
@@ -605,7 +636,8 @@ def main():
         "frontend operators (+, -, <<, compare, mux, slices) and the simulator are the ones of properties C03/C04; only their composition by the scl generators is modelled here",
         "pipelined variants: registers without reset are modelled as 'unknown until loaded' (model prints ?, accepted as wildcard while the pipeline fills); longDivision pipelining is modelled as a pure delay of #{i in 2..numW | i % steps == 0} cycles (retiming-balanced)",
         "size_t wrap of utils::nextPow2 / Log2C not modelled (sizes < 2^63); zero-width operands and encoder(size 1) are rejected by the frontend at design time and are outside the model",
-        "documented deviations proved in Coq as *_refuted and excluded from the oracle: min/max<SInt> when the operand difference overflows, priorityEncoderTree(registerStep=true) latency imbalance, counterUpDown with inc&dec at the bounds",
+        "two deviations are recorded in KNOWN_FINDINGS.txt, proved in Coq as *_refuted (the model is faithful to them) and detected on the implementation by the oracle on every run: priorityEncoderTree(registerStep=true) latency imbalance, counterUpDown with inc&dec at a bound; any other deviation is a violation",
+        "rejected inputs (design-time errors of the frontend, outside the model): longDivision with a 1-bit SInt numerator, encoder of a 1-bit operand, min/max with operands of different widths, crc with polynomial wider than max(remainder, data)",
     ]
     if forbidden:
         res["ok"] = False
@@ -638,7 +670,7 @@ def main():
                 for o in opsl:
                     line = f"{head} : {o}"
                     iv = im2.get(line, "EXCEPTION missing")
-                    if oracle(toks[0], [int(t) for t in toks[1:]], o.split(), iv.split()) is False:
+                    if oracle(toks[0], [int(t) for t in toks[1:]], o.split(), iv.split()) is False:  # known-finding patterns do not count
                         found.append((line, iv))
             if extra_rounds >= 3:
                 break
@@ -652,9 +684,6 @@ def main():
                 if pk not in byprim or len(line) < len(byprim[pk][0]):
                     byprim[pk] = (line, iv)
             for pk, (line, iv) in sorted(byprim.items()):
-                if any(line in k or k in line for k in known):
-                    rep.known(f"{line} observed {iv}")
-                    continue
                 mv = mdl.get(line)
                 rep.violation(dict(property=CID, primitive=pk, case=line, observed=iv, model=mv,
                                    expected="mathematical definition (python oracle in checks/C17.py::oracle)",
